@@ -201,7 +201,7 @@ def make_worker(k):
 BASE_OK = [35]
 
 
-def cargo_test(w, timeout=240):
+def cargo_test(w, timeout=100):
     env = dict(os.environ, CARGO_NET_OFFLINE='true', CARGO_TARGET_DIR=os.path.join(w, 'target'), CARGO_INCREMENTAL='1', RUSTFLAGS='-Awarnings')
     try:
         r = subprocess.run(['cargo', 'test', '--offline', '--lib', '--tests', '--no-fail-fast', '--', '--test-threads', '2'], cwd=os.path.join(w, 'repo'), env=env,
